@@ -437,6 +437,12 @@ def run_step(ctx, cur, en):
     if kind == "ctor_attr":
         # Cls(attr=cur.attr): the stored (possibly wrapper) object of another instance handed to a constructor
         return ctx.classes[en[1]](**{en[2]: getattr(cur, en[2])})
+    if kind == "mapping_attr":      # Cls.from_other_class({attr: cur.attr}): the LIVE stored object in a mapping
+        return ctx.classes[en[1]].from_other_class({en[2]: getattr(cur, en[2])})
+    if kind == "object_attr":       # ... as an attribute of a foreign object
+        return ctx.classes[en[1]].from_other_class(types.SimpleNamespace(**{en[2]: getattr(cur, en[2])}))
+    if kind == "deser_attr":        # ... as a value of a document
+        return deser_call(en[3], ctx.classes[en[1]], {en[2]: getattr(cur, en[2])})
     if kind == "copy":
         return copy.copy(cur)
     if kind == "deepcopy":
@@ -444,6 +450,39 @@ def run_step(ctx, cur, en):
     if kind == "pickle":
         return pickle.loads(pickle.dumps(cur))
     raise ValueError(en)
+
+
+PLAIN_MUTABLE = (list, dict, set, __import__("collections").deque)
+
+
+def corrupt_in_place(obj, bad, depth=0):
+    """Alters IN PLACE the first container reachable from `obj` that typedpy hands out unwrapped (a plain python
+    set / list / dict / deque: the stored value itself, an element of a wrapper, a tuple or a frozenset, a dict
+    value): adds `bad` to it.  Returns a description of what was done, or None."""
+    if depth > 6:
+        return None
+    if type(obj) in PLAIN_MUTABLE:
+        try:
+            if type(obj) is set:
+                obj.add(bad)
+            elif type(obj) is dict:
+                obj["zz"] = bad
+            else:
+                obj.append(bad)
+            return type(obj).__name__
+        except TypeError:
+            return None
+    if isinstance(obj, dict):
+        children = list(obj.values()) + list(obj.keys())
+    elif isinstance(obj, (list, tuple, set, frozenset, PLAIN_MUTABLE[3])):
+        children = list(obj)
+    else:
+        return None
+    for ch in children:
+        r = corrupt_in_place(ch, bad, depth + 1)
+        if r:
+            return r
+    return None
 
 
 def raised_in_deepcopy(ex):
@@ -494,6 +533,13 @@ def run_chain(ctx, chain):
         if en[0] == "factory":
             ctx.set_factory(en[1], en[2])      # from now on the default factory `key` returns this value
             continue
+        if en[0] == "corrupt":
+            # the instance AGES: a container typedpy hands out unwrapped, reachable from field en[1], is altered in
+            # place (no typedpy code runs); the current instance is re-reified so that the model sees what it is now
+            if cur is not None and en[1] in cur.__dict__:
+                corrupt_in_place(cur.__dict__[en[1]], G.unreify(en[2], ctx.classes))
+                cur_r = reify(cur)
+            continue
         flags = set()
         try:
             new = run_step(ctx, cur, en)
@@ -535,6 +581,15 @@ def emit_entry(en, cur_r=None):
         if held is None:
             return "(ECtor %s [])" % E.pstr(en[1]), False       # getattr fails / yields a default: not modelled
         return "(ECtor %s %s)" % (E.pstr(en[1]), kwlit([(en[2], held)])), True
+    if k in ("mapping_attr", "object_attr", "deser_attr"):
+        held = dict(cur_r[2]).get(en[2]) if (cur_r and cur_r[0] == "struct") else None
+        if held is None:
+            return "(ECtor %s [])" % E.pstr(en[1]), False
+        if k == "mapping_attr":
+            return "(EFromMapping %s %s [])" % (E.pstr(en[1]), kwlit([(en[2], held)])), True
+        if k == "object_attr":
+            return "(ECtor %s %s)" % (E.pstr(en[1]), kwlit([(en[2], held)])), True
+        return "(EDeser %s %s)" % (E.pstr(en[1]), kwlit([(en[2], held)])), False
     if k == "ctor":
         return "(ECtor %s %s)" % (E.pstr(en[1]), kwlit(en[2])), True
     if k == "deser":
@@ -798,7 +853,7 @@ def default_origin(ctx, step, name):
         supplied = cur_names
     elif k == "wrap":
         supplied = given(en[3]) | {en[2]}
-    elif k == "ctor_attr":
+    elif k in ("ctor_attr", "mapping_attr", "object_attr", "deser_attr"):
         supplied = {en[2]}
     else:
         return None
@@ -925,6 +980,16 @@ def python_src(ctx, chain, env=None):
             lines.append("x = %s(%s)" % (en[1], ", ".join(([kws(en[3])] if en[3] else []) + ["%s=x" % en[2]])))
         elif k == "ctor_attr":
             lines.append("x = %s(%s=x.%s)" % (en[1], en[2], en[2]))
+        elif k == "mapping_attr":
+            lines.append("x = %s.from_other_class({%r: x.%s})" % (en[1], en[2], en[2]))
+        elif k == "object_attr":
+            lines.append("import types\nx = %s.from_other_class(types.SimpleNamespace(%s=x.%s))" % (en[1], en[2], en[2]))
+        elif k == "deser_attr":
+            lines.append(deser_src(en[3], en[1], "{%r: x.%s}" % (en[2], en[2])))
+        elif k == "corrupt":
+            lines.append("from harness.props.c01 import corrupt_in_place\n"
+                         "corrupt_in_place(x.__dict__[%r], %s)     # an unwrapped inner container, altered in place"
+                         % (en[1], G.py_src(en[2])))
         elif k == "copy":
             lines.append("x = copy.copy(x)")
         elif k == "deepcopy":
@@ -1113,7 +1178,7 @@ def run(rep, tier):
 
     def add_chain(ctx, env, chain, stream, shape_key):
         steps = run_chain(ctx, chain)
-        real_pos = [i for i, en_ in enumerate(chain) if en_[0] != "factory"]
+        real_pos = [i for i, en_ in enumerate(chain) if en_[0] not in ("factory", "corrupt")]
         rep.stat(stream, "executed-length:%d" % len(steps))
         for si, st in enumerate(steps):
             en, cur_r, out, flags = st
@@ -1173,6 +1238,26 @@ def run(rep, tier):
     rep.cov["streams"].setdefault("defaults", {"evaluations": 0})
     rep.cov["streams"]["defaults"].update({"chains": n_def})
     n_defaults_items = len(items) - n_lat_only
+    # ---- stream 1c: instances that have AGED (an unwrapped inner container altered in place) handed, as the live
+    #      stored object, to every validating way in
+    n_aged = 0
+    for pre, asts, chains in L.aged_lattice(tier, core.seed()):
+        try:
+            ctx = Ctx(asts)
+        except Exception as ex:  # noqa
+            rep.stat("aged", "group-rejected:" + type(ex).__name__)
+            continue
+        ctxs.append(ctx)
+        for tag, leaf_shape, chain in chains:
+            steps = add_chain(ctx, minimal_env(asts, chain), chain, "aged", (tag, leaf_shape))
+            rep.stat("aged", "way:" + tag.split(":")[1])
+            if len(steps) == 2:
+                # did the instance really go ill-typed?  (guidance for the evidence: the spec on the re-reified
+                # current instance is evaluated in Coq as part of the step)
+                rep.stat("aged", "handed-over:" + ("refused" if steps[1][2][0] != "ok" else "accepted"))
+            n_aged += 1
+    rep.cov["streams"].setdefault("aged", {"evaluations": 0})
+    rep.cov["streams"]["aged"].update({"chains": n_aged})
     n_lattice_items = len(items)
     _t["lattice_run_s"] = round(_time.time() - _t["start"], 1)
 
@@ -1228,7 +1313,8 @@ def run(rep, tier):
         rep.cov["timing"] = _t
         if r is not None:
             s = rep.cov["streams"]["steps"]
-            for sname, lo, hi in (("lattice", 0, n_lat_only), ("defaults", n_lat_only, n_lattice_items)):
+            for sname, lo, hi in (("lattice", 0, n_lat_only), ("defaults", n_lat_only, n_lat_only + n_defaults_items),
+                                  ("aged", n_lat_only + n_defaults_items, n_lattice_items)):
                 idx = set(range(lo, hi))
                 rep.cov["streams"][sname].update({
                     "accepted": sum(1 for _, st in items[lo:hi] if st[2][0] == "ok"),
